@@ -269,10 +269,17 @@ class _LocInterp(FinamInterp):
 def r32p_locations(repo, sink):
     n = 0
     good, bad = Sym("enum", "Location", "CELLS"), Sym("enum", "Location", "NONE")
+    seen_setters = set()
     for k in repo.subclasses(repo.cls("Grid")):
-        st = k.setters.get("data_location")
-        if st is None or any("abstractmethod" in ast.unparse(d) for d in st.node.decorator_list):
+        st = repo.resolve(k, "data_location", "setter")
+        if st is None or repo.is_abstract(k) or any("abstractmethod" in ast.unparse(d) for d in st.node.decorator_list):
             continue
+        # one representative class per distinct setter / override structure
+        key = (st.qualname, tuple(m.qualname for m in (repo.resolve(k, h, "method") for h in sorted({x.func.attr for x in ast.walk(st.node)
+               if isinstance(x, ast.Call) and isinstance(x.func, ast.Attribute) and isinstance(x.func.value, ast.Name) and x.func.value.id == "self"})) if m is not None))
+        if key in seen_setters and k.name not in ("RectilinearGrid", "UnstructuredGrid"):
+            continue
+        seen_setters.add(key)
         gt = repo.resolve(k, "data_location", "getter")
         n += 1
         why = None
@@ -347,6 +354,14 @@ def r32p_copy_independent(repo, sink):
 
         worst = None
         try:
+            # one object: a shape read before the location changes must not survive the change
+            it, g = fresh()
+            before = read(it, g)
+            it.run(st, [points], self_obj=g)
+            after = read(it, g)
+            if before != want["CELLS"] or after != want["POINTS"]:
+                worst = worst or (f"one grid, shape/size read as {before} for CELLS, then switched to POINTS: it reports {after}, must be {want['POINTS']} "
+                                  "(the cached shape is stale)")
             for scenario in ("copy-then-change-copy", "copy-then-change-original", "read-copy-change-copy-read-original"):
                 it, g = fresh()
                 if scenario != "copy-then-change-original":
